@@ -1,5 +1,6 @@
 // hC08: drives db.NewLocalDB over a pre-populated GoMemDB / GoLevelDB with generated
-// Begin / Set / Get / List / PrefixCount / Commit / Rollback histories.
+// Begin / Set / Get / List / PrefixCount / Commit / Rollback histories, and the EventLocal* handlers
+// of a test node's blockchain module (handlers.go).
 package main
 
 import (
@@ -32,8 +33,9 @@ type input struct {
 }
 
 type env struct {
-	out *hlib.Out
-	ldb db.DB
+	out   *hlib.Out
+	ldb   db.DB
+	nodes map[string]*hnode // test nodes of the handler streams, by block-store backend
 }
 
 func clearDB(d db.DB) {
@@ -294,6 +296,13 @@ func main() {
 	defer d.Close()
 
 	if opts.Replay != "" {
+		var hin hinput
+		if err := hlib.ReplayInput(opts.Replay, &hin); err == nil && hin.Mode != "" {
+			e.startNodes(opts.OutDir)
+			defer e.stopNodes()
+			e.runHandlers("replay", hin)
+			return
+		}
 		var in input
 		if err := hlib.ReplayInput(opts.Replay, &in); err != nil {
 			panic(err)
@@ -320,6 +329,10 @@ func main() {
 		}
 		e.run(kind, genHistory(r, nops, ro, backend, pool, nil))
 	}
+	// the EventLocal* handlers of a node (blockchain/localdb.go)
+	e.startNodes(opts.OutDir)
+	defer e.stopNodes()
+	e.handlerStreams(r.Fork(), opts.Thorough())
 	// unrestricted stream: listing the prefix whose upper bound is types.EmptyValue (C07's finding)
 	ev := types.EmptyValue
 	p0 := append([]byte{}, ev...)
